@@ -1,0 +1,111 @@
+//! Verification hooks. Compiled only with the cargo feature `verif`; never part of a
+//! normal build. They let an external harness observe (and re-stamp the birth time of)
+//! the entries of macro-generated caches, whose storage is otherwise function-local.
+use crate::CacheEntry;
+use dashmap::DashMap;
+use once_cell::sync::Lazy;
+use std::any::Any;
+use std::collections::{HashMap, VecDeque};
+use std::sync::Arc;
+use std::time::{Duration, Instant, SystemTime, UNIX_EPOCH};
+
+/// What a cache currently holds.
+#[derive(Default)]
+pub struct Snapshot {
+    /// key, clone of the stored value, hit counter, age (milliseconds for the sync
+    /// caches, whole seconds for the async cache)
+    pub store: Vec<(String, Box<dyn Any>, u64, u64)>,
+    /// the eviction order queue, front first
+    pub order: Vec<String>,
+}
+
+pub enum ProbeCmd<'a> {
+    /// fill in the snapshot
+    Snapshot(&'a mut Snapshot),
+    /// give every entry for which the function returns `Some(age)` that age
+    /// (milliseconds for sync caches, seconds for the async cache)
+    SetAges(&'a dyn Fn(&str) -> Option<u64>),
+}
+
+type Probe = dyn Fn(&mut ProbeCmd) + Send + Sync;
+
+static PROBES: Lazy<std::sync::RwLock<HashMap<String, Arc<Probe>>>> =
+    Lazy::new(|| std::sync::RwLock::new(HashMap::new()));
+
+pub fn register_probe<F>(name: &str, f: F)
+where
+    F: Fn(&mut ProbeCmd) + Send + Sync + 'static,
+{
+    PROBES.write().unwrap().insert(name.to_string(), Arc::new(f));
+}
+
+/// Runs the probe registered under `name`; false if there is none (cache never used).
+pub fn probe(name: &str, cmd: &mut ProbeCmd) -> bool {
+    let p = PROBES.read().unwrap().get(name).cloned();
+    match p {
+        Some(p) => {
+            p(cmd);
+            true
+        }
+        None => false,
+    }
+}
+
+pub fn probe_names() -> Vec<String> {
+    PROBES.read().unwrap().keys().cloned().collect()
+}
+
+pub fn probe_sync<R: Clone + 'static>(
+    map: &mut HashMap<String, CacheEntry<R>>,
+    order: &mut VecDeque<String>,
+    cmd: &mut ProbeCmd,
+) {
+    match cmd {
+        ProbeCmd::Snapshot(s) => {
+            let now = Instant::now();
+            for (k, e) in map.iter() {
+                s.store.push((
+                    k.clone(),
+                    Box::new(e.value.clone()),
+                    e.frequency,
+                    now.duration_since(e.inserted_at).as_millis() as u64,
+                ));
+            }
+            s.order = order.iter().cloned().collect();
+        }
+        ProbeCmd::SetAges(f) => {
+            let now = Instant::now();
+            for (k, e) in map.iter_mut() {
+                if let Some(age) = f(k) {
+                    if let Some(t) = now.checked_sub(Duration::from_millis(age)) {
+                        e.inserted_at = t;
+                    }
+                }
+            }
+        }
+    }
+}
+
+pub fn probe_async<R: Clone + 'static>(
+    map: &DashMap<String, (R, u64, u64)>,
+    order: &mut VecDeque<String>,
+    cmd: &mut ProbeCmd,
+) {
+    let now = SystemTime::now().duration_since(UNIX_EPOCH).unwrap().as_secs();
+    match cmd {
+        ProbeCmd::Snapshot(s) => {
+            for e in map.iter() {
+                let (v, ts, f) = e.value();
+                s.store.push((e.key().clone(), Box::new(v.clone()), *f, now.saturating_sub(*ts)));
+            }
+            s.order = order.iter().cloned().collect();
+        }
+        ProbeCmd::SetAges(f) => {
+            for mut e in map.iter_mut() {
+                if let Some(age) = f(e.key()) {
+                    e.value_mut().1 = now.saturating_sub(age);
+                }
+            }
+        }
+    }
+}
